@@ -40,6 +40,7 @@
 #define VF_INI_FLDCAP		(2 * VF_INI_FLD + 2)			/* longest line data */
 #define VF_INI_CAP		(VF_INI_FLDCAP + INI_LINE_ALLOC_PADDING)	/* + padding */
 #define VF_INI_RECSZ		(sizeof(ini_line_t) + VF_INI_CAP)	/* constant record size */
+#define VF_INI_SMALLTABLE	((VF_INI_MAXL + 1) * sizeof(ini_line_p)) /* harness-built table */
 #ifndef VF_REPLAY
 size_t	vf_ini_req[256];
 #define VF_INI_REQ(p)		vf_ini_req[__CPROVER_POINTER_OBJECT(p) & 255]
@@ -514,6 +515,30 @@ vf_ini_post_parse(const ini_t *ini, size_t old_count, const uint8_t *buf, size_t
 			return (0);
 	}
 	return (vf_ini_line_canonical(l));
+}
+
+/* ini_val_set: the store stays well formed whatever happens (also on ENOMEM); after
+ * success the case-sensitive lookup of (section, name) finds a line whose value is the
+ * new value (size, and byte vf_ini_gj for every gj) */
+static inline int
+vf_ini_post_val_set(const ini_t *ini, const uint8_t *sect, size_t sect_n,
+    const uint8_t *name, size_t name_n, const uint8_t *val, size_t val_n, int ret) {
+	size_t m;
+	const ini_line_t *l;
+
+	if (!vf_ini_wf(ini))
+		return (0);
+	if (ret != 0)
+		return (ret == ENOMEM);
+	m = vf_ini_spec_lookup(ini, sect, sect_n, name, name_n, 0);
+	if (m == INI_OFFSET_INVALID)
+		return (0);
+	l = ini->lines[m];
+	if (l->val_size != val_n)
+		return (0);
+	if (vf_ini_gj < val_n)
+		return (VF_INI_DATA(l)[l->name_size + 1 + vf_ini_gj] == val[vf_ini_gj]);
+	return (1);
 }
 
 /* ------------------------------------------------- symbolic store builder ---- */
